@@ -42,7 +42,7 @@ func (c11) Cases(tier string) int {
 func (c11) Describe() core.Info {
 	return core.Info{
 		Level: "exploration",
-		Rule: "declared programs written as source text: an extensional predicate q declared with one or two bound rows drawn from the type-expression generator (base types, name-prefix types incl. prefix-of-a-prefix names /foo vs /foobar, singletons, unions, pairs, lists, maps, structs with optional fields, tagged unions; function and dot syntax) with base facts that are members by construction and near-misses (sibling prefix, wrong shape, extra struct field); an intensional predicate p declared with a related bound (same, widened, narrowed, mutated) and one rule that copies, projects, constructs (fn:pair, list, map, struct) or destructures (:match_pair, :list:member, :match_field, :match_entry) values, or joins q (two bound rows) with a wider predicate src on the same variable in either premise order, or narrows a union of name-prefix types by one or two negated :match_prefix premises over a small name trie, or declares the head predicate with a mode (? / - / + on the derived argument), or derives a declared predicate from an undeclared recursive one whose values change type at every hop (clauses in either order). Programs are submitted to AnalyzeAndCheckBounds(ErrorForBoundsMismatch); every accepted program is evaluated and every stored fact of a user-declared predicate is judged by the library's own run-time check (builtin.TypeChecker.CheckTypeBounds). Non-trivial: program accepted and the declared intensional predicate has a derived fact; distinct by program text.",
+		Rule: "declared programs written as source text: an extensional predicate q declared with one or two bound rows drawn from the type-expression generator (base types, name-prefix types incl. prefix-of-a-prefix names /foo vs /foobar, singletons, unions, pairs, lists, maps, structs with optional fields, tagged unions; function and dot syntax) with base facts that are members by construction and near-misses (sibling prefix, wrong shape, extra struct field); an intensional predicate p declared with a related bound (same, widened, narrowed, mutated) and one rule that copies, projects, constructs (fn:pair, list, map, struct) or destructures (:match_pair, :list:member, :match_field, :match_entry) values, or joins q (two bound rows) with a wider predicate src on the same variable in either premise order, or narrows a union of name-prefix types by one or two negated :match_prefix premises over a small name trie, or declares the head predicate with a mode (? / - / + on the derived argument), or derives a declared predicate from an undeclared recursive one whose values change type at every hop (clauses in either order). Programs are submitted to AnalyzeAndCheckBounds(ErrorForBoundsMismatch); every accepted program is evaluated and every stored fact of a user-declared predicate is judged by the library's own run-time check (builtin.TypeChecker.CheckTypeBounds). Non-trivial: program accepted and the declared intensional predicate has a derived fact; distinct by program text. Further shapes: a declared head with a mode; a predicate with unit clauses and rules; :match_prefix and reflects over names that extend the prefix without a separator; names under the names of built-in types; a constant argument over an extensional predicate with two bound rows and an enum column (facts preloaded).",
 		Assumptions: []string{"the run-time judgement is the library's own, as the property states", "rejected programs are not judged"},
 	}
 }
